@@ -365,7 +365,33 @@ def lru_assembly(ctx, rr):
     raw = [x for x in ast.walk(d.node) if (isinstance(x, ast.Subscript) and isinstance(x.value, ast.Name) and x.value.id == dp and isinstance(x.slice, ast.Slice))
            or (isinstance(x, ast.Call) and isinstance(x.func, ast.Attribute) and x.func.attr in ('rsplit', 'rpartition', 'rstrip', 'split', 'partition', 'rfind', 'rindex')
                and any(isinstance(y, ast.Name) and y.id == dp for y in ast.walk(x.func.value)))]
+    # a cut on the raw bytes that is the same function: the closing separator of the last stem is found first, the one before it is searched
+    # below that position, the result is the LRU up to and including it (empty when there is none)
+    def raw_equiv():
+        asg = {a.targets[0].id: a.value for a in P.own(d, ast.Assign) if len(a.targets) == 1 and isinstance(a.targets[0], ast.Name)}
+        rf = [x for x in raw if isinstance(x, ast.Call) and x.func.attr == 'rfind' and isinstance(x.func.value, ast.Name) and x.func.value.id == dp
+              and x.args and isinstance(x.args[0], ast.Constant) and x.args[0].value == b'|']
+        if len(rf) != 2 or len([x for x in raw if isinstance(x, ast.Call)]) != 2:
+            return False
+        first = [x for x in rf if len(x.args) == 1]
+        second = [x for x in rf if len(x.args) == 3 and isinstance(x.args[1], ast.Constant) and x.args[1].value == 0 and isinstance(x.args[2], ast.Name)
+                  and first and asg.get(x.args[2].id) is first[0]]
+        if len(first) != 1 or len(second) != 1:
+            return False
+        n2 = [k for k, v in asg.items() if v is second[0]]
+        rets = list(P.own(d, ast.Return))
+        for r in rets:
+            v = r.value
+            if isinstance(v, ast.Constant) and v.value == b'':
+                continue
+            if isinstance(v, ast.Subscript) and isinstance(v.value, ast.Name) and v.value.id == dp and isinstance(v.slice, ast.Slice) and v.slice.lower is None and v.slice.step is None \
+                    and v.slice.upper is not None and n2 and ast.unparse(v.slice.upper).replace(' ', '') in ('%s+1' % n2[0], '1+%s' % n2[0]):
+                continue
+            return False
+        return bool(rets)
     if good and not other and not raw:
+        ok = True
+    elif raw and not good and not other and raw_equiv():
         ok = True
     elif other or raw:
         ok = False
